@@ -80,7 +80,7 @@ class Concrete(core.Surface):
             m = pycfmodel.parse(copy.deepcopy(x["template"]))
         except Exception:
             return ("EXC", "EUndefined", "")
-        args = tplgen.model_args(m, x["extra"])
+        args = tplgen.model_args(m, x["extra"], x["template"])
         r = core.model_res(rn.call(102, args))
         if r[0] != "OK":
             return ("EXC", "EUndefined", "")        # failing resolutions: C01/C05
@@ -127,7 +127,7 @@ class FixedPoint(core.Surface):
         except Exception:
             return ("EXC", "EUndefined", "")
         from pycfmodel.model.cf_model import CFModel
-        args = tplgen.model_args(m, x["extra"])
+        args = tplgen.model_args(m, x["extra"], x["template"])
         # op 110 = resolve_model, then resolve_model on its own output (Conditions now booleans, kept resources with their
         # Condition attribute), + the boolean hypotheses of C03_model_fixed_point on the first output and on the input
         first, second, hyp_out, hyp_in = rn.call(110, args)
